@@ -56,6 +56,9 @@ type TcbInfoDoc struct {
 	OmitLevels bool // emit no tcbLevels member at all
 	UpperHex   bool
 	IssueRaw   string // see issueMember
+	// Future is appended verbatim before the closing brace: members that today's verifiers do not know
+	// (Intel has added members to these documents before), e.g. `,"tcbRecoveryWindow":30`
+	Future string
 }
 
 // ts writes an instant as RFC 3339 in UTC; a sub-second part is written only when there is one.
@@ -128,6 +131,7 @@ func (d *TcbInfoDoc) JSON() []byte {
 		}
 		sb.WriteString(`]`)
 	}
+	sb.WriteString(d.Future)
 	sb.WriteString(`}`)
 	return []byte(sb.String())
 }
@@ -169,6 +173,9 @@ type QEIdentityDoc struct {
 	Levels     []QELevel
 	OmitLevels bool
 	IssueRaw   string // see issueMember
+	// Future is appended verbatim before the closing brace: members that today's verifiers do not know
+	// (Intel has added members to these documents before), e.g. `,"tcbRecoveryWindow":30`
+	Future string
 }
 
 // JSON emits the enclaveIdentity member exactly as it will be signed.
@@ -187,6 +194,7 @@ func (d *QEIdentityDoc) JSON() []byte {
 		}
 		sb.WriteString(`]`)
 	}
+	sb.WriteString(d.Future)
 	sb.WriteString(`}`)
 	return []byte(sb.String())
 }
